@@ -415,10 +415,11 @@ const (
 	sF // a write that parses but fails when it runs
 	sU // an unparsable command
 	sR // a read
+	sK // a command name the server does not know (parses, is queued, fails when run)
 	nSym
 )
 
-var symName = []string{"MULTI", "EXEC", "DISCARD", "W", "F", "U", "R"}
+var symName = []string{"MULTI", "EXEC", "DISCARD", "W", "F", "U", "R", "K"}
 
 type refConn struct {
 	inMulti bool
@@ -445,6 +446,8 @@ func (m *refModel) cmdFor(sym int, id string) []string {
 		return []string{"INCR", "l" + id}
 	case sU:
 		return []string{"SET", "c" + id}
+	case sK:
+		return []string{"APPEND", "c" + id, "x"}
 	default:
 		return []string{"GET", "c" + id}
 	}
@@ -456,7 +459,7 @@ func (m *refModel) run(sym int) string {
 	case sW:
 		m.counter++
 		return ":" + strconv.FormatInt(m.counter, 10)
-	case sF:
+	case sF, sK:
 		return "-ERR"
 	case sR:
 		if m.counter == 0 {
@@ -1033,11 +1036,11 @@ func c13Blocks(g *hx.WireGen, grams []*hx.CmdGrammar, c *hx.Client, twin *redka.
 
 // the typed keys of the sweep and the commands that create them (each with a time-to-live)
 var sweepSetup = map[string][][]string{
-	"string": {{"DEL", "ks", "ks2", "kn"}, {"SET", "ks", "10", "EX", "5000"}, {"SET", "ks2", "abc"}},
-	"hash":   {{"DEL", "kh", "kh2", "kn"}, {"HSET", "kh", "f1", "1", "f2", "b", "f3", ""}, {"EXPIRE", "kh", "5000"}, {"HSET", "kh2", "f1", "x"}},
-	"list":   {{"DEL", "kl", "kl2", "kn"}, {"RPUSH", "kl", "a"}, {"RPUSH", "kl", ""}, {"RPUSH", "kl", "c"}, {"RPUSH", "kl", "a"}, {"EXPIRE", "kl", "5000"}, {"RPUSH", "kl2", "z"}, {"RPUSH", "kl2", ""}},
-	"set":    {{"DEL", "ke", "ke2", "kn"}, {"SADD", "ke", "a", "b", "c"}, {"EXPIRE", "ke", "5000"}, {"SADD", "ke2", "b", "c", "d"}},
-	"zset":   {{"DEL", "kz", "kz2", "kn"}, {"ZADD", "kz", "1", "a", "2", "b", "3", "c"}, {"EXPIRE", "kz", "5000"}, {"ZADD", "kz2", "10", "a", "0.5", "b", "7", "d"}},
+	"string": {{"DEL", "ks", "ks2", "kn"}, {"SET", "ks", "10", "EX", "5000"}, {"SET", "ks2", "abc"}, {"SET", "a\\b", "1"}, {"SET", "ab", "2"}, {"SET", "a*", "3"}},
+	"hash":   {{"DEL", "kh", "kh2", "kn"}, {"HSET", "kh", "f1", "1", "f2", "b", "f3", "", "match", "m", "count", "5"}, {"EXPIRE", "kh", "5000"}, {"HSET", "kh2", "f1", "x"}},
+	"list":   {{"DEL", "kl", "kl2", "kn"}, {"RPUSH", "kl", "a"}, {"RPUSH", "kl", ""}, {"RPUSH", "kl", "c"}, {"RPUSH", "kl", "a"}, {"RPUSH", "kl", "before"}, {"EXPIRE", "kl", "5000"}, {"RPUSH", "kl2", "z"}, {"RPUSH", "kl2", ""}},
+	"set":    {{"DEL", "ke", "ke2", "kn"}, {"SADD", "ke", "a", "b", "c", "match", "count"}, {"EXPIRE", "ke", "5000"}, {"SADD", "ke2", "b", "c", "d"}},
+	"zset":   {{"DEL", "kz", "kz2", "kn"}, {"ZADD", "kz", "1", "a", "2", "b", "3", "c", "4", "withscore", "5", "withscores", "6", "limit"}, {"EXPIRE", "kz", "5000"}, {"ZADD", "kz2", "10", "a", "0.5", "b", "7", "d"}},
 }
 
 // the keys a swept command draws from: the typed key with a time-to-live and a second key of the
@@ -1056,7 +1059,7 @@ func handVectors(cg *hx.CmdGrammar, fam string) [][]string {
 	add := func(a ...string) { out = append(out, append([]string{n}, a...)) }
 	switch n {
 	case "keys":
-		for _, p := range []string{"", "*", "k*", "k?", "[k]*", k1, "k[a-z]2", "*2"} {
+		for _, p := range []string{"", "*", "k*", "k?", "[k]*", k1, "k[a-z]2", "*2", "a\\b", "a\\*", "a[\\]b", "a?", "a[*]"} {
 			add(p)
 		}
 	case "rename", "renamenx":
@@ -1199,7 +1202,10 @@ func c13Sweep(g *hx.WireGen, grams []*hx.CmdGrammar, one func(i int, args []stri
 					default:
 						g.Keys = sweepKeys[f]
 					}
+					// once per variant a positional value spells one of the command's own keywords
+					g.ForceKeyword = rep == 2
 					vec := g.VectorOpts(cg, which)
+					g.ForceKeyword = false
 					g.ResetKeySeq()
 					if !run(vec) {
 						return
